@@ -397,6 +397,53 @@ func engineResources(thorough bool) {
 			fail("copy-not-equal|submessage-presence", "Copy() of %v changes which sections are present: %v", r, c)
 		}
 	}
+	// every subset of the eight top-level sections present (the others absent, not merely empty), each
+	// present section in each of its three states: a copy keeps exactly the sections and values it was given
+	{
+		secs := []struct {
+			name string
+			set  func(r *api.LinuxResources, st int)
+		}{
+			{"memory", func(r *api.LinuxResources, st int) { r.Memory = &api.LinuxMemory{Limit: i64(st)} }},
+			{"cpu", func(r *api.LinuxResources, st int) { r.Cpu = &api.LinuxCPU{Shares: u64(st), Cpus: str(st)} }},
+		}
+		for _, nm := range []string{"pids", "hugepages", "unified", "blockio", "rdt", "devices"} {
+			for _, f := range fields {
+				if f.name == nm {
+					secs = append(secs, struct {
+						name string
+						set  func(r *api.LinuxResources, st int)
+					}{nm, f.set})
+				}
+			}
+		}
+		cnt := 0
+		for mask := 0; mask < 1<<len(secs); mask++ {
+			for st := 1; st <= 3; st++ {
+				r := &api.LinuxResources{}
+				var present []string
+				for i, sc := range secs {
+					if mask&(1<<i) != 0 {
+						sc.set(r, st)
+						present = append(present, sc.name)
+					}
+				}
+				eval()
+				cnt++
+				c := r.Copy()
+				a, b := normRes(r, false), normRes(c, false)
+				a.Devices, b.Devices = nil, nil // the statement lists memory, CPU, hugepages, unified, pids and classes
+				if !proto.Equal(a, b) {
+					fail("copy-not-equal|sections|"+diffFields(a, b), "Copy() of a resource set with only the sections %v present (state %d) differs:\n  original: %v\n  copy:     %v", present, st, r, c)
+				}
+				if (r.Memory == nil) != (c.Memory == nil) || (r.Cpu == nil) != (c.Cpu == nil) || (r.Pids == nil) != (c.Pids == nil) ||
+					(r.BlockioClass == nil) != (c.BlockioClass == nil) || (r.RdtClass == nil) != (c.RdtClass == nil) {
+					fail("copy-not-equal|sections-presence", "Copy() of a resource set with only the sections %v present (state %d) changes which sections are present: %v", present, st, c)
+				}
+			}
+		}
+		res.Bounds["resource_section_subsets"] = cnt
+	}
 	res.Bounds["resource_states"] = n
 	res.Distinct += int64(n)
 }
